@@ -13,7 +13,7 @@ from oasv.models import (aero_geom_problem, aero_surface, aerostruct_problem, st
 
 RULE = (
     "In-situ operating points: Hypothesis draws a configuration (aero point behind Geometry groups with 1-2 surfaces / "
-    "structure alone / aerostructural point; symmetric left or right halves or full span; ground effect; tube or wingbox; "
+    "structure alone / aerostructural point; 1-3 aero surfaces of unequal mesh sizes; symmetric left or right halves or full span; ground effect; tube or wingbox; "
     "ref_axis_pos in {0,0.25,0.6,1}; wetted/projected area; compressible; rotation rates; viscous/wave; weight relief; fuel; "
     "point masses; geometry design variables incl. the exact defaults such as taper=1), builds the real public group, runs it, "
     "then re-instantiates EVERY OpenAeroStruct component instance alone with the options it had and the input values it saw "
@@ -85,7 +85,7 @@ def _dv_kwargs(d, mesh):
 
 @st.composite
 def aero_cfg(draw):
-    surfaces = draw(S.aero_config(max_surf=2, kinds=("left", "right", "full", "asym"), nx=(2, 3), nyh=(2, 4), max_panels=20,
+    surfaces = draw(S.aero_config(max_surf=3, kinds=("left", "right", "full", "asym"), nx=(2, 3), nyh=(2, 4), max_panels=26,
                                   noise=True, winglet=False))
     # right-half symmetric meshes only with default sweep/dihedral/taper (KF-C07-rightDV) -- derivatives still judged
     allsym = all(symmetry_of(s["mesh"]) for s in surfaces)
@@ -334,6 +334,7 @@ def verdict(desc):
     out.label("topo=" + desc["topo"])
     out.label("eps=%g" % eps)
     if desc["topo"] == "aero":
+        out.label("nsurf=%d" % len(desc["surfaces"]))
         for s in desc["surfaces"]:
             out.label("kind=" + s["mesh"]["kind"])
         for k in ("compressible", "ground"):
